@@ -157,13 +157,13 @@ class FilesystemRegistry(AbstractRegistry):
 
     def __iter__(self):
         for f in self.fs.filterdir("/", files=self._files, exclude_dirs=["*"]):
-            name, _ = splitext(f.name)
-            yield name
+            name, ext = splitext(f.name)
+            # `filterdir` patterns are case-insensitive, `__getitem__` is not
+            if ext[1:] in self._extensions:
+                yield name
 
     def __len__(self):
-        return sum(
-            1 for _ in self.fs.filterdir("/", files=self._files, exclude_dirs=["*"])
-        )
+        return sum(1 for _ in self)
 
     def __getitem__(self, item):
         files = ("{}.{}".format(item, extension) for extension in self._extensions)
